@@ -102,6 +102,17 @@ func valueMenu() []valSpec {
 func run(c *runner.Ctx) {
 	// global registration set of this worker process (there is no unregister)
 	globalModel := map[string]walk.Fn{}
+	if strings.Contains(c.Mode, "L") {
+		// late registration: every type of this harness is validated once (so whatever the library keeps per type exists)
+		// before the global functions are registered; resolution must still follow the table as it is at call time
+		for _, tp := range typePairs {
+			o := reflect.New(tp.outer)
+			valueMenu()[len(valueMenu())-1].set(o.Elem(), tp.inner)
+			_ = valid.Struct(o.Interface())
+			_ = valid.ValidateStruct(reflect.New(tp.inner).Interface(), "valid")
+		}
+		_ = valid.Struct(&Node{Name: "abcdefghijklm", Next: &Node{}})
+	}
 	if strings.Contains(c.Mode, "p") {
 		valid.SetCustomerValidFn("phone", mkFn("global-phone"))
 		globalModel["phone"] = mkModelFn("global-phone")
@@ -111,6 +122,7 @@ func run(c *runner.Ctx) {
 		globalModel["zz"] = mkModelFn("global-zz")
 	}
 	recursiveSpace(c, globalModel)
+	lateNames(c)
 	vals := valueMenu()
 	callSubsets := [][]string{{}, {"phone"}, {"zz"}, {"phone", "zz"}}
 	for _, tp := range typePairs {
@@ -251,6 +263,77 @@ type Node struct {
 	Children []*Node `valid:"exist"`
 }
 
+var lateSeq int
+
+// lateNames: a rule name unknown at the first validation of a type is registered globally afterwards; the next
+// validation of the same type resolves it (per-call definitions still win), through tags and through per-call rules.
+func lateNames(c *runner.Ctx) {
+	c.Space(c.Mode + ":late-registration")
+	for _, viaTag := range []bool{true, false} {
+		for _, nested := range []bool{false, true} {
+			for _, perCallToo := range []bool{false, true} {
+				if !c.Take() {
+					continue
+				}
+				lateSeq++
+				name := fmt.Sprintf("late%s%d", strings.ToLower(c.Mode), lateSeq*64+c.Worker)
+				tag := reflect.StructTag("")
+				rm := valid.RM{"F": name + ",le=3"}
+				if viaTag {
+					tag = reflect.StructTag(`valid:"` + name + `,le=3"`)
+					rm = nil
+				}
+				inner := reflect.StructOf([]reflect.StructField{{Name: "F", Type: reflect.TypeOf(""), Tag: tag}})
+				src := reflect.New(inner)
+				src.Elem().Field(0).SetString("toolong")
+				top := src.Interface()
+				path := "F"
+				if nested {
+					outer := reflect.StructOf([]reflect.StructField{{Name: "In", Type: reflect.PtrTo(inner), Tag: `valid:"exist"`}})
+					o := reflect.New(outer)
+					o.Elem().Field(0).Set(src)
+					top = o.Interface()
+					path = ".In.F"
+					if !viaTag {
+						continue // a per-call rule set addresses the outermost struct only
+					}
+				}
+				call := func(fns valid.Name2FnMap) string {
+					var err error
+					if rm != nil {
+						err = valid.StructForFns(top, rm, fns)
+					} else {
+						err = valid.StructForFns(top, nil, fns)
+					}
+					if err == nil {
+						return ""
+					}
+					return err.Error()
+				}
+				size := `"` + path + `" input "toolong", explain: it is more than 3 str-length`
+				unknown := `"` + path + `" valid "` + name + `" is not exist, You can call SetValidFn`
+				if !strings.Contains(path, ".") {
+					unknown = `valid "` + name + `" is not exist, You can call SetValidFn`
+				}
+				steps := []struct{ what, got, want string }{}
+				steps = append(steps, struct{ what, got, want string }{"before registration", call(nil), unknown + "; " + size})
+				valid.SetCustomerValidFn(name, mkFn("global-"+name))
+				steps = append(steps, struct{ what, got, want string }{"after registration", call(nil), `"` + path + `" input "toolong", explain: global-` + name + "; " + size})
+				if perCallToo {
+					steps = append(steps, struct{ what, got, want string }{"per-call definition wins", call(valid.Name2FnMap{name: mkFn("call-" + name)}), `"` + path + `" input "toolong", explain: call-` + name + "; " + size})
+				}
+				c.Done(true, len(steps))
+				for _, st := range steps {
+					if st.got != st.want {
+						c.Violation("late-registration/"+strings.ReplaceAll(st.what, " ", "-"), map[string]interface{}{"rule_name": name, "via_tag": viaTag, "nested": nested, "step": st.what, "expected": st.want, "actual": st.got})
+						break
+					}
+				}
+			}
+		}
+	}
+}
+
 func recursiveSpace(c *runner.Ctx, globalModel map[string]walk.Fn) {
 	c.Space(c.Mode + ":recursive")
 	names := []string{"", "a", "abcdefghijklm", "abcd", "abcde"}
@@ -363,9 +446,9 @@ func main() {
 		Technique: "complete product of tag rules x typed/unscoped rule sets x function definitions (per-call/global/built-in) x values x entry points vs selection model",
 		Rule: "9 named (Outer,Inner) type pairs sharing the field name Name with tag rule in {none, required, to=2~3}; rule set for Outer in {absent, empty, {Name}, {Name,In}}, for Inner in {absent, empty, {Name}, {Code}}, " +
 			"unscoped in {absent, empty, {Name}, {Name,L}}, registered in three orders; 72 value assignments; entry points VStruct.SetRule, Struct(v,rm), StructForFn(s), NestedStructForRule; function names phone (built-in) and zz (unknown) " +
-			"defined at every subset of {per call, global} (one worker set per global registration set); expected clause string from the walk model; non-trivial = Outer and Inner both carry a non-empty rule set for the shared field name",
+			"defined at every subset of {per call, global} (one worker set per global registration set, plus one in which every type has been validated before the global functions are registered, and a space of names registered between two validations of one type); expected clause string from the walk model; non-trivial = Outer and Inner both carry a non-empty rule set for the shared field name",
 		Assumptions: []string{"a non-empty typed set for the outermost type combined with a non-empty unscoped set is not specified and not enumerated", "unscoped sets are exercised with single-struct inputs"},
 		Run:         run,
-		Modes:       []runner.Mode{{Name: "g"}, {Name: "gp"}, {Name: "gz"}, {Name: "gpz"}},
+		Modes:       []runner.Mode{{Name: "g"}, {Name: "gp"}, {Name: "gz"}, {Name: "gpz"}, {Name: "gpzL", Workers: 8}},
 	})
 }
